@@ -1508,8 +1508,15 @@ func (fc *FnCtx) inlineCall(st *State, call *ast.CallExpr, fn *types.Func, recvE
 		args = append(args, fc.tr(st, a))
 	}
 	var recvVal Val
+	recvAutoAddr := false
 	if recvExpr != nil {
 		recvVal = fc.tr(st, recvExpr)
+		// x.m() with a pointer receiver on an addressable scalar x: the callee's *recv is x
+		if rt := fc.typeOf(recvExpr); rt != nil {
+			if _, isPtr := rt.Underlying().(*types.Pointer); !isPtr {
+				recvAutoAddr = true
+			}
+		}
 	}
 	// switch to the callee's package / signature for the duration of the body
 	savedPkg, savedSig, savedKeys, savedBody, savedContract := fc.pkg, fc.sig, fc.resultKeys, fc.body, fc.contract
@@ -1529,8 +1536,16 @@ func (fc *FnCtx) inlineCall(st *State, call *ast.CallExpr, fn *types.Func, recvE
 		fc.pkg, fc.sig, fc.resultKeys, fc.body, fc.contract = savedPkg, savedSig, savedKeys, savedBody, savedContract
 		fc.inlineDepth--
 	}
+	derefK, derefInit := "", ""
 	if r := sig.Recv(); r != nil && recvExpr != nil {
 		fc.assignKey(st, objKey(r), r.Type(), recvVal)
+		if pt, ok := r.Type().Underlying().(*types.Pointer); ok && recvAutoAddr {
+			switch sortOf(pt.Elem()) {
+			case SInt, SBool, SStr:
+				derefK, derefInit = objKey(r)+".$deref", recvVal.T
+				st.env[derefK] = Val{T: recvVal.T, S: sortOf(pt.Elem()), GT: pt.Elem()}
+			}
+		}
 	}
 	for i := 0; i < sig.Params().Len() && i < len(args); i++ {
 		p := sig.Params().At(i)
@@ -1541,6 +1556,11 @@ func (fc *FnCtx) inlineCall(st *State, call *ast.CallExpr, fn *types.Func, recvE
 	outs := fc.execBlock(probe, site.decl.Body.List)
 	fc.dry--
 	if len(outs) != 1 || (outs[0].Kind != OReturn && outs[0].Kind != ONormal) {
+		restore()
+		return nil, false
+	}
+	// a body that stores through the receiver is not executed in place (the store would be lost)
+	if derefK != "" && probe.env[derefK].T != derefInit {
 		restore()
 		return nil, false
 	}
